@@ -285,6 +285,14 @@ pub fn lincode_proof_variants<F: PrimeField, C: Config, T: CanonicalSerialize + 
                 add("columns+paths-shifted", &|x| { x.columns.rotate_left(1); x.paths.rotate_left(1); });
                 add("paths-repeated", &|x| { let p0 = x.paths[0].clone(); x.paths[1] = p0; });
             }
+            // one authentication path that does not reach the root, everything else authentic:
+            // the nodes of another queried leaf under this leaf's index (first, seeded and last position)
+            for (tag, jj) in [("first", 0usize), ("j", j), ("last", nc - 1)] {
+                if let Some(k) = (0..nc).find(|&k| e.paths[k].leaf_index != e.paths[jj].leaf_index) {
+                    let name = format!("paths[{tag}].nodes-replaced");
+                    add(&name, &|x| { x.paths[jj].auth_path = x.paths[k].auth_path.clone(); x.paths[jj].leaf_sibling_hash = x.paths[k].leaf_sibling_hash.clone(); });
+                }
+            }
             add("leaf_index-changed", &|x| x.paths[j].leaf_index ^= 1);
             add("column-row-dropped", &|x| { x.columns[j].pop(); });
             add("column-row-added", &|x| x.columns[j].push(F::zero()));
